@@ -409,7 +409,7 @@ class SimpleJSONRPCDispatcher(SimpleXMLRPCDispatcher, object):
                 fault = Fault(
                     -32603,
                     "{0}:{1}".format(type(ex).__name__, ex),
-                    rpcid=request.get("id"),
+                    rpcid=self.__writable_id(request.get("id")),
                     config=config,
                 )
                 _logger.error("Error calling method %s: %s", method, fault)
@@ -434,11 +434,27 @@ class SimpleJSONRPCDispatcher(SimpleXMLRPCDispatcher, object):
             fault = Fault(
                 -32603,
                 "{0}:{1}".format(type(ex).__name__, ex),
-                rpcid=request["id"],
+                rpcid=self.__writable_id(request["id"]),
                 config=config,
             )
             _logger.error("Error preparing JSON-RPC result: %s", fault)
             return fault.dump()
+
+    def __writable_id(self, rpcid):
+        """
+        Returns the given request ID if it can be written in a response, else
+        None: an ID loaded from a __jsonclass__ member can be an object that
+        can't be converted back to JSON, and the error about it must not make
+        the whole response (of the whole batch) fail in turn
+
+        :param rpcid: A request ID
+        :return: The request ID, or None
+        """
+        try:
+            jsonrpclib.jdumps(rpcid, self.encoding)
+            return rpcid
+        except Exception:
+            return None
 
     def _dispatch(self, method, params, config=None):
         """
